@@ -109,17 +109,19 @@ Section Engine.
   Qed.
 
   Lemma start_go_ok P x c ts st0 : nth_error n 0 = Some st0 -> incl ts (s_trans st0) ->
-    forall r, start_go n x c ts = Some r -> live_ok n negs (P ++ [x]) r.
+    forall r, start_go n (g_lim g) x c ts = Some r -> live_ok n negs (P ++ [x]) r.
   Proof.
     intros H0. induction ts as [|nx ts IH]; intros I r H; cbn in H; [discriminate|].
     destruct (nth_error n nx) as [ns|] eqn:Hn; [|discriminate].
     destruct (matches_state ns x []) eqn:Hm.
-    - inversion H; subst. split; [reflexivity|]. exists [x]. split; [exists P; reflexivity|].
+    - apply start_capture_fields in H. destruct H as (Hc & Hs & Hp & _).
+      unfold live_ok. rewrite Hc, Hs, Hp.
+      split; [reflexivity|]. exists [x]. split; [exists P; reflexivity|].
       unfold push. cbn [r_stack r_cur app]. eapply d_start; eauto. apply I. left. reflexivity.
     - apply IH; [intros y Iy; apply I; right; exact Iy | exact H].
   Qed.
 
-  Lemma try_start_ok P x c r : try_start n x c = Some r -> live_ok n negs (P ++ [x]) r.
+  Lemma try_start_ok P x c r : try_start n (g_lim g) x c = Some r -> live_ok n negs (P ++ [x]) r.
   Proof.
     unfold try_start. destruct (nth_error n 0) as [st0|] eqn:H0; [|discriminate].
     intros H. eapply start_go_ok; eauto using incl_refl.
@@ -191,7 +193,7 @@ Section Engine.
       set (parts1 := match part_get key parts0 with Some _ => part_set key rs1 parts0 | None => parts0 end) in *.
       assert (Gp1 : Forall (fun p : pkey * list run => Forall (good n negs (P ++ [x])) (snd p)) parts1).
       { unfold parts1. destruct (part_get key parts0); [apply part_set_F; assumption | exact Gp0]. }
-      destruct (try_start n x (e_clock en)) as [r|] eqn:TS.
+      destruct (try_start n (g_lim g) x (e_clock en)) as [r|] eqn:TS.
       + set (cur1 := match part_get key parts1 with Some rs => rs | None => [] end) in *.
         assert (Gc1 : Forall (good n negs (P ++ [x])) cur1).
         { unfold cur1. destruct (part_get key parts1) eqn:E; [eapply part_get_F; eauto | constructor]. }
@@ -202,7 +204,7 @@ Section Engine.
       + inversion H; subst. split; [|exact Gm]. split; cbn; [exact Gr0 | exact Gp1].
     - destruct (proc_runs _ n (g_lim g) x (check_negs negs x (e_runs en)) 0 []) as [[rs1 ms1]|] eqn:PR; [|discriminate].
       destruct (proc_runs_ok P x _ (check_negs negs x (e_runs en)) 0 [] rs1 ms1 (Forall_nil _) Pr0 (Forall_nil _) PR) as [G1 Gm].
-      destruct (try_start n x (e_clock en)) as [r|] eqn:TS.
+      destruct (try_start n (g_lim g) x (e_clock en)) as [r|] eqn:TS.
       + destruct (backpressure (g_strategy g) (g_max_runs g) rs1 r (e_cnt en)) as [[rs2 added] c1] eqn:B.
         inversion H; subst. split; [|exact Gm]. split; cbn; [|exact Gp0].
         eapply backpressure_good; [exact G1 | right; eapply try_start_ok; eauto | exact B].
